@@ -28,7 +28,11 @@
 (*  - A statement is one step; bytes are not stored, a layout entry keeps  *)
 (*    (address, size, padding, value encoded).                             *)
 (*  - Fixed = FALSE is the algorithm of the pinned tree, Fixed = TRUE the  *)
-(*    repaired SymbolAdder (proposed_fixes/C01-label-padding-livelock).    *)
+(*    repaired SymbolAdder (proposed_fixes/C01-label-padding-livelock):    *)
+(*    sym[l].ent is the value a node was entered with (the C repair keeps  *)
+(*    it only for nodes ChangeSymbol has patched, which is equivalent).    *)
+(*  - ThrowMaxPass = 3 is -Y of the pinned tree (TLC finds the oscillation *)
+(*    PassLoop_MC_Y.cfg), 2 abstracts the repair THROWERRORSMAXPASS = 32.  *)
 (*  - A double definition leaves pLabelEntry dangling in C (the new entry  *)
 (*    is freed, EnterIntSymbolWithFlags still returns it); the model       *)
 (*    treats a later LabelModify on it as a no-op on the table.            *)
@@ -41,6 +45,8 @@ CONSTANTS
   RelFpuOK,     \* TRUE: 68000 Bcc.S also tolerates first-pass-unknown operands (mFirstPassUnknownOrQuestionable)
   Fixed,        \* FALSE = SymbolAdder of the pinned tree, TRUE = repaired
   ThrowErrors,  \* command line option -Y
+  ThrowMaxPass, \* -Y discards jump errors only in passes <= ThrowMaxPass.  3 (the saturated pass number) = in
+                \* every pass = pinned tree; 2 = abstraction of the repair (THROWERRORSMAXPASS = 32 in C)
   WithExtra,    \* run one forced extra pass after convergence (hook ASL_VERIF_EXTRA_PASSES=1)
   AllowIllFormed, \* also run programs with undefined / doubly defined symbols (error paths)
   Complete      \* program builder: beyond MaxItems, definitions of still undefined labels may be appended
@@ -79,7 +85,7 @@ LookupSymbol(s, l, ps) ==
              s |-> [s EXCEPT !.errs = @ + 1]]                          \* ErrNum_SymbolUndef
 
 \* asmpars.c SymbolAdder for a constant (MayChange = FALSE)
-SymbolAdder(s, l, v) ==
+SymbolAdder(s, l, v, ps) ==
   LET e == s.sym[l] IN
   IF ~e.known
   THEN [s EXCEPT !.sym[l] = [known |-> TRUE, defd |-> TRUE, val |-> v, ent |-> v]]
@@ -88,7 +94,7 @@ SymbolAdder(s, l, v) ==
        ELSE LET old     == IF Fixed THEN e.ent ELSE e.val
                 differs == v # old
                 throw   == differs /\ ~s.repass /\ s.jmp > 0
-            IN [s EXCEPT !.errs = IF throw /\ ThrowErrors THEN @ - s.jmp ELSE @,
+            IN [s EXCEPT !.errs = IF throw /\ ThrowErrors /\ ps <= ThrowMaxPass THEN @ - s.jmp ELSE @,
                          !.jmp = IF throw THEN 0 ELSE @,
                          !.repass = @ \/ differs,                       \* phase error => another pass
                          !.sym[l] = [known |-> TRUE, defd |-> TRUE, val |-> v, ent |-> v]]
@@ -97,9 +103,9 @@ SymbolAdder(s, l, v) ==
 ChangeSymbol(s, l, v) == [s EXCEPT !.sym[l].val = v]
 
 \* asmlabel.c
-LabelHandle(s, l) ==
+LabelHandle(s, l, ps) ==
   LET dbl == s.sym[l].known /\ s.sym[l].defd
-      s1  == SymbolAdder(s, l, s.pc)
+      s1  == SymbolAdder(s, l, s.pc, ps)
   IN [s1 EXCEPT !.lab = IF dbl THEN Dangling ELSE l, !.labv = s.pc]
 LabelModify(s, old, new) ==
   IF old = s.labv
@@ -118,7 +124,7 @@ WrJmpError(s) == [s EXCEPT !.errs = @ + 1, !.jmp = IF s.repass THEN @ ELSE @ + 1
 
 \* one source statement (as.c Produce_Code + the target's MakeCode)
 Statement(s0, it, ps) ==
-  LET sl == IF it.k = "def" THEN LabelHandle(s0, it.l) ELSE s0     \* label field is handled first
+  LET sl == IF it.k = "def" THEN LabelHandle(s0, it.l, ps) ELSE s0     \* label field is handled first
       s  == PadIfOdd(sl, it)
       pd == s.pc - sl.pc
       body ==
@@ -137,7 +143,7 @@ Statement(s0, it, ps) ==
                                    ELSE Emit(r.s, pd, 2, r.val)
           [] it.k = "equ"  -> LET r == LookupSymbol(s, it.l2, ps) IN           \* asmallg.c CodeSETEQU
                               IF ~r.ok \/ r.fpu THEN Emit(r.s, pd, 0, -1)
-                              ELSE Emit(SymbolAdder(r.s, it.l, r.val + it.d), pd, 0, -1)
+                              ELSE Emit(SymbolAdder(r.s, it.l, r.val + it.d, ps), pd, 0, -1)
   IN LabelReset(body)            \* as.c: every statement with an opcode forgets the previous label
 
 \* as.c AssembleFile_InitPass + ResetSymbolDefines + AsmErrPassInit; JmpErrors is *not* reset by the code
